@@ -494,7 +494,7 @@ func (fx *FX) assumeTypeInv(st *State, obj Term, sname string) {
 	if fx.c != nil && strings.Contains(fx.c.Opts["no-type-invariant"], ti.Type) {
 		return
 	}
-	key := st.epoch + "|" + obj.S + "|" + sname
+	key := st.epoch + "|" + obj.S + "|" + sname + "|" + st.reach.S
 	if fx.invAssumed[key] || fx.invBroken[obj.S+"|"+sname] {
 		return
 	}
@@ -790,7 +790,16 @@ func (fx *FX) binop(fr *frame, st *State, op token.Token, xv, yv Val, xt types.T
 				e = IdEq(sReg(y), T("0", SInt))
 			}
 		default:
-			e = Eq(x, y)
+			if at, ok := xt.Underlying().(*types.Array); ok && at.Len() <= 64 {
+				// arrays are total SMT arrays: compare the N elements only
+				var cs []Term
+				for k := int64(0); k < at.Len(); k++ {
+					cs = append(cs, IdEq(Select(x, BVLit(uint64(k), 64)), Select(y, BVLit(uint64(k), 64))))
+				}
+				e = And(cs...)
+			} else {
+				e = Eq(x, y)
+			}
 		}
 		if op == token.NEQ {
 			return Not(e)
